@@ -1,4 +1,4 @@
-CONSTANTS LimbBits = 2  AddrBits = 4  MaxSz = 2  Bases = {0, 3, 14}
+CONSTANTS LimbBits = 2  AddrBits = 4  MaxSz = 2  Bases = {0, 14}
 SPECIFICATION Spec
 INVARIANT AllOK
 CHECK_DEADLOCK FALSE
